@@ -11,7 +11,7 @@
     as pure functions, for all sizes / GPU counts / CU counts. *)
 From Coq Require Import Permutation ZArith.
 From VLib Require Import Akita ListX.
-From VMem Require Import Rdma RdmaProofs.
+From VMem Require Import Rdma RdmaProofs RdmaLive.
 From VDrv Require Import Distribute DistributeProofs.
 From VSys Require Import Routing RoutingProofs.
 Open Scope N_scope.
@@ -202,6 +202,92 @@ Proof.
 Qed.
 Print Assumptions rdma_buffers_bounded.
 
+(** ** End-to-end liveness (RdmaLive.v)
+
+    Fair environment.  Its state [env] is the two lists of forwarded requests
+    it has retrieved but not answered yet ([env_of s] computes them for any
+    reachable state from the engine's ghost logs).  One [round c q] is: one
+    tick; then k_ro / k_ri / k_di / k_do retrievals from the out-buffers of
+    RDMARequestOutside / RDMARequestInside / RDMADataInside / RDMADataOutside
+    (each retrieved forwarded request joins the unanswered list of its side);
+    then k_aro / k_adi times "deliver the response to the oldest unanswered
+    request if the port accepts it" on RDMARequestOutside / RDMADataInside.
+    No new requests and no control messages.  A quota is fair ([quota_ok]) when
+    all six counts are at least 1; a count of bufferSize or more serves the
+    whole buffer.  Every round may use a different quota.
+
+    Rank of (engine state, environment state):
+      5·queued requests (inside path: only while L1 intake is not paused)
+      + 4·forwarded requests still in an out-buffer + 3·retrieved but unanswered
+      + 2·responses queued in the engine + 1·answers still in an out-buffer
+      (both paths) + 1 if a drain is pending.
+    [bound s] is the rank of [s] with the environment state [env_of s].
+
+    From ANY state reachable by protocol-respecting events (hence not crashed)
+    with no control request still queued in the control port's in-buffer —
+    including states with a drain pending and intake paused — and with widths
+    and buffer size at least 1: after any [bound s] or more fair rounds both
+    transaction tables and all data buffers are empty (the inside request
+    queue too unless intake is paused), the environment owes no response, the
+    engine has not crashed, the pause flag is what it was, and a drain that was
+    pending has been acknowledged: the DrainRsp sits in the control out-buffer. *)
+Theorem rdma_liveness : forall c evs,
+  widths_ok c -> respects c init evs ->
+  let s := run c init evs in
+  ct_in s = [] ->
+  forall qs, Forall quota_ok qs -> (bound s <= length qs)%nat ->
+  let s' := fst (rounds c qs (s, env_of s)) in
+  let e' := snd (rounds c qs (s, env_of s)) in
+  quiescent s' e' /\ Good c s' /\ pause s' = pause s /\
+  (draining s = true -> exists d, cur s' = Some d /\ ct_out s' = [ctl_rsp FL_DRAIN_RSP d]).
+Proof. exact liveness. Qed.
+Print Assumptions rdma_liveness.
+
+(** ... combined with the exactly-once invariants: at that point, on both
+    paths, the forwarded requests the environment took are exactly the clones
+    of all transactions ever created, the answers the requesters took are
+    exactly the clones of the responses that completed them, every
+    transaction completed exactly once (permutation), every delivered response
+    was used, and every request the port accepted became a transaction (inside
+    path: when intake is not paused). *)
+Theorem rdma_liveness_all_answered : forall c evs,
+  widths_ok c -> respects c init evs ->
+  let s := run c init evs in
+  ct_in s = [] ->
+  forall qs, Forall quota_ok qs -> (bound s <= length qs)%nat ->
+  let s' := fst (rounds c qs (s, env_of s)) in
+  path_all_answered (remote_find c) P_RO P_RI (ch_in s') /\
+  path_all_answered (local_find c) P_DI P_DO (ch_out s') /\
+  map t_orig (g_all (ch_out s')) = g_deliv (ch_out s') /\
+  (pause s = false -> map t_orig (g_all (ch_in s')) = g_deliv (ch_in s')).
+Proof. exact liveness_answered. Qed.
+Print Assumptions rdma_liveness_all_answered.
+
+(** the fair rounds are nothing but protocol-respecting events of the model
+    without new requests and without control messages: the state they reach is
+    [run c init (evs ++ evs')], so every theorem above applies to it *)
+Theorem rdma_liveness_rounds_are_runs : forall c evs,
+  widths_ok c -> respects c init evs ->
+  let s := run c init evs in
+  ct_in s = [] ->
+  forall qs, Forall quota_ok qs ->
+  exists evs', fst (rounds c qs (s, env_of s)) = run c init (evs ++ evs') /\
+               respects c init (evs ++ evs') /\ Forall quiet_ev evs'.
+Proof. exact liveness_reachable. Qed.
+Print Assumptions rdma_liveness_rounds_are_runs.
+
+(** the rank is a ranking function: every fair round that starts with work
+    left lowers it; with no work left it stays 0 *)
+Theorem rdma_rank_decreases : forall c evs,
+  widths_ok c -> respects c init evs ->
+  let s := run c init evs in
+  ct_in s = [] ->
+  forall qs q, Forall quota_ok qs -> quota_ok q ->
+  let x := rounds c qs (s, env_of s) in
+  (rank (round c q x) < rank x)%nat \/ (rank (round c q x) = 0%nat /\ rank x = 0%nat).
+Proof. exact rank_decreases. Qed.
+Print Assumptions rdma_rank_decreases.
+
 (** ** Non-vacuity and the crash paths, on concrete histories *)
 Definition cfg0 : cfg :=
   mkCfg 2 1 1 1 1 (banked 4096 [0; 100; 101]) (banked 4096 [200; 201]).
@@ -248,6 +334,46 @@ Proof.
          | |- _ -> False => let H := fresh in intro H; repeat destruct H as [H|H]; try discriminate H; try contradiction
          end.
 Qed.
+
+(** liveness is not vacuous: after the first eleven events of [demo] two reads
+    from inside and a write from outside have been forwarded and retrieved,
+    none is answered, a drain is pending and intake is paused; the bound is
+    3·3 + 1 = 10, and ten fair rounds (one service per port) answer all three
+    and push the DrainRsp; the rank falls 10, 8, 3, 1, 0 (the bound is an upper
+    bound: a round usually moves several messages) *)
+Definition demo_busy : list ev := firstn 11 demo.
+Definition q1 : quota := mkQ 1 1 1 1 1 1.
+
+Example liveness_demo_hyps :
+  widths_ok cfg0 /\ quota_ok q1 /\ ct_in (run cfg0 init demo_busy) = [] /\
+  draining (run cfg0 init demo_busy) = true /\ pause (run cfg0 init demo_busy) = true /\
+  bound (run cfg0 init demo_busy) = 10%nat /\
+  map m_id (p_in (env_of (run cfg0 init demo_busy))) = [1000000; 1000001] /\
+  map m_id (p_out (env_of (run cfg0 init demo_busy))) = [2000000].
+Proof. vm_compute. repeat split; try reflexivity; lia. Qed.
+
+Example liveness_demo_respects : respects cfg0 init demo_busy.
+Proof.
+  vm_compute.
+  repeat match goal with
+         | |- _ /\ _ => split
+         | |- True => exact I
+         | |- _ = _ => reflexivity
+         | |- _ \/ _ => first [left; repeat split; reflexivity | right; repeat split; reflexivity
+                              | left; reflexivity | right; left; reflexivity | right; right; left; reflexivity ]
+         | |- _ -> False => let H := fresh in intro H; repeat destruct H as [H|H]; try discriminate H; try contradiction
+         end.
+Qed.
+
+Example liveness_demo_result :
+  let s := run cfg0 init demo_busy in
+  let x := rounds cfg0 (repeat q1 10) (s, env_of s) in
+  rank x = 0%nat /\ txs (ch_in (fst x)) = [] /\ txs (ch_out (fst x)) = [] /\
+  map (fun m => (m_dst m, m_rspto m)) (g_aretr (ch_in (fst x))) = [(10, 1); (11, 2)] /\
+  map (fun m => (m_dst m, m_rspto m)) (g_aretr (ch_out (fst x))) = [(20, 3)] /\
+  map m_flags (ct_out (fst x)) = [FL_DRAIN_RSP] /\
+  map (fun k => rank (rounds cfg0 (repeat q1 k) (s, env_of s))) [0; 1; 2; 3; 4]%nat = [10; 8; 3; 1; 0]%nat.
+Proof. vm_compute. repeat split; reflexivity. Qed.
 
 (** the five ways to crash are all reachable, each by a protocol violation *)
 Example crash_restart_without_drain :
